@@ -39,7 +39,7 @@ BASES_CYC = [
 ]
 
 MUTATIONS = ["covlen_0", "covlen_neg", "covlen_big", "covlen_without_length_attr", "covlen_with_coverage", "nonstring_node", "cycle", "no_source", "no_sink", "negative", "negative_last", "missing", "nonconserving", "nonconserving_quarter", "cons_absent_arc", "cons_not_list", "cons_empty", "cons_nontuple",
-             "coverage_0", "coverage_neg", "coverage_big", "k_0", "k_neg", "k_frac", "weight_type_str", "origin_foo", "unknown_start", "unknown_end", "scale_big", "scale_neg", "empty_graph"]
+             "coverage_0", "coverage_neg", "coverage_big", "coverage_nan", "covlen_nan", "k_0", "k_neg", "k_frac", "weight_type_str", "origin_foo", "unknown_start", "unknown_end", "scale_big", "scale_neg", "empty_graph"]
 
 
 def bounds(tier):
@@ -212,14 +212,14 @@ def _build(case):
             kw[ckey] = [[]]
         elif m == "cons_nontuple":
             kw[ckey] = [[[first_arc[0], first_arc[1]]]] if origin == "edge" else [[3]]
-        elif m in ("coverage_0", "coverage_neg", "coverage_big"):
+        elif m in ("coverage_0", "coverage_neg", "coverage_big", "coverage_nan"):
             kw.setdefault(ckey, [[first_arc]] if origin == "edge" else [[nodes[0]]])
-            kw[ccov] = {"coverage_0": 0, "coverage_neg": -0.1, "coverage_big": 1.5}[m]
+            kw[ccov] = {"coverage_0": 0, "coverage_neg": -0.1, "coverage_big": 1.5, "coverage_nan": float("nan")}[m]
         elif m.startswith("covlen"):
             kw.setdefault(ckey, [[first_arc]] if origin == "edge" else [[nodes[0]]])
             if m != "covlen_without_length_attr":
                 kw["length_attr"] = "length"
-            kw["subpath_constraints_coverage_length"] = {"covlen_0": 0, "covlen_neg": -0.1, "covlen_big": 1.5, "covlen_without_length_attr": 0.5, "covlen_with_coverage": 0.5}[m]
+            kw["subpath_constraints_coverage_length"] = {"covlen_0": 0, "covlen_neg": -0.1, "covlen_big": 1.5, "covlen_without_length_attr": 0.5, "covlen_with_coverage": 0.5, "covlen_nan": float("nan")}[m]
             if m == "covlen_with_coverage":
                 kw["subpath_constraints_coverage"] = 0.5
         elif m == "k_0":
